@@ -256,6 +256,12 @@ fn core_values() -> Vec<V> {
     for e in ["#DIV/0!", "#REF!"] {
         v.push(V::Auto(e.to_string()));
     }
+    // rich texts whose runs have no font: two runs, and ONE run whose text is what a key builder would get by joining
+    // the two with the word it uses for "no font" (None / null / empty)
+    v.push(V::Rich(vec![("ab".to_string(), false), ("cd".to_string(), false)]));
+    for joiner in ["None", "null", "", "|"] {
+        v.push(V::Rich(vec![(format!("ab{}cd", joiner), false)]));
+    }
     for t in ["", " ", "007", "abc"] {
         v.push(V::StrFormula(t.to_string(), "IF(1>2,\"x\",\"\")".to_string()));
     }
